@@ -41,6 +41,90 @@ def apply_edits(text, edits):
     return text
 
 
+def apply_unified_diff(texts: dict, diff_text: str):
+    """apply a git unified diff to {path: text}; returns {path: new text} for the touched files or None if a hunk does not
+    match (context is verified line by line; no fuzz)"""
+    out = {}
+    cur, lines, pos, newl = None, None, 0, None
+    files = re.split(r'^diff --git .*$', diff_text, flags=re.M)[1:]
+    for chunk in files:
+        m = re.search(r'^\+\+\+ b/(\S+)', chunk, flags=re.M)
+        if not m:
+            return None
+        path = m.group(1)
+        if path not in texts:
+            return None
+        src = texts[path].split('\n')
+        res, at = [], 0
+        hunks = re.split(r'^(@@ -\d+(?:,\d+)? \+\d+(?:,\d+)? @@).*$', chunk, flags=re.M)[1:]
+        for h in range(0, len(hunks), 2):
+            hm = re.match(r'@@ -(\d+)(?:,(\d+))? \+(\d+)(?:,(\d+))? @@', hunks[h])
+            start = int(hm.group(1)) - 1
+            if hm.group(2) == '0':
+                start += 1
+            body = hunks[h + 1].split('\n')
+            if body and body[0] == '':
+                body = body[1:]
+            while body and body[-1] == '':
+                body = body[:-1]
+            body = [ln for ln in body if not ln.startswith('\\')]
+            oldl = [(ln[1:] if ln else '') for ln in body if (ln[:1] in (' ', '-') or ln == '')]
+            # locate the hunk: at the stated line, else at the nearest position where its old lines occur (like git's offset)
+            cands = [q for q in range(at, len(src) - len(oldl) + 1) if src[q:q + len(oldl)] == oldl]
+            if not cands:
+                return None
+            start = min(cands, key=lambda q: abs(q - start))
+            res.extend(src[at:start])
+            at = start
+            for ln in body:
+                tag, txt = (ln[0], ln[1:]) if ln else (' ', '')
+                if tag == ' ':
+                    res.append(txt)
+                    at += 1
+                elif tag == '-':
+                    at += 1
+                elif tag == '+':
+                    res.append(txt)
+                else:
+                    return None
+        res.extend(src[at:])
+        out[path] = '\n'.join(res)
+    return out
+
+
+def refactor_entries(pid):
+    """behaviour-preserving refactorings written by independent sub-agents (seeded/refactor): each must stay silent"""
+    import json
+    import os
+    root = os.path.join(os.path.dirname(os.path.dirname(os.path.abspath(__file__))), 'seeded', 'refactor')
+    idx = os.path.join(root, 'index.json')
+    if not os.path.exists(idx):
+        return []
+    with open(idx) as fh:
+        ids = json.load(fh).get(pid, [])
+    out = []
+    for rid in ids:
+        pth = os.path.join(root, rid, 'patch.diff')
+        if os.path.exists(pth):
+            with open(pth) as fh:
+                out.append((f'refactor-{rid}', fh.read()))
+    return out
+
+
+def seed_entries(pid):
+    """breaking changes written by independent sub-agents (seeded/Cxx-mN): each must be reported by the check of its property"""
+    import glob
+    import os
+    root = os.path.join(os.path.dirname(os.path.dirname(os.path.abspath(__file__))), 'seeded')
+    out = []
+    for d in sorted(glob.glob(os.path.join(root, f'{pid}-m*'))):
+        pth = os.path.join(d, 'patch.diff')
+        if os.path.exists(pth):
+            with open(pth) as fh:
+                out.append((f'seed-{os.path.basename(d)}', fh.read()))
+    return out
+
+
 def catalogue(pid):
     try:
         mod = importlib.import_module(f'kverif.catalogue.{pid}')
@@ -82,6 +166,42 @@ def thorough(pid, ctx, root, seed):
                 und = [f.what for f in c2.by(report.UNDECIDED)]
                 missed.append(f'{e.name}: benign variant raised exit {code} (rules {rules}, undecided {und[:2]})')
         results.append({'entry': e.name, 'kind': e.kind, 'expected_rule': e.expect, 'exit': code, 'rules': rules, 'ok': ok})
+    texts = {p_: m_.text for p_, m_ in base.modules.items()}
+    for name, diff in refactor_entries(pid):
+        new = apply_unified_diff(texts, diff)
+        if new is None:
+            skipped.append(name)
+            continue
+        try:
+            for p_, t_ in new.items():
+                compile(t_, p_, 'exec')
+        except SyntaxError as ex:
+            missed.append(f'{name}: patched file does not compile ({ex})')
+            continue
+        code, c2 = run_property(pid, 'quick', root, overlay=new, write=False, quiet=True)
+        rules = sorted({f.rule for f in c2.by(report.VIOLATION)})
+        ok = code == 0
+        if not ok:
+            und = [f.what for f in c2.by(report.UNDECIDED)]
+            missed.append(f'{name}: behaviour-preserving refactoring raised exit {code} (rules {rules}, undecided {und[:2]})')
+        results.append({'entry': name, 'kind': 'benign', 'expected_rule': None, 'exit': code, 'rules': rules, 'ok': ok})
+    for name, diff in seed_entries(pid):
+        new = apply_unified_diff(texts, diff)
+        if new is None:
+            skipped.append(name)
+            continue
+        try:
+            for p_, t_ in new.items():
+                compile(t_, p_, 'exec')
+        except SyntaxError as ex:
+            missed.append(f'{name}: patched file does not compile ({ex})')
+            continue
+        code, c2 = run_property(pid, 'quick', root, overlay=new, write=False, quiet=True)
+        rules = sorted({f.rule for f in c2.by(report.VIOLATION)})
+        ok = code == 1
+        if not ok:
+            missed.append(f'{name}: seeded breaking change not reported (exit {code}, rules {rules})')
+        results.append({'entry': name, 'kind': 'mutant', 'expected_rule': None, 'exit': code, 'rules': rules, 'ok': ok})
     n_mut = sum(1 for r in results if r['kind'] == 'mutant')
     n_ben = sum(1 for r in results if r['kind'] == 'benign')
     print(f'[{pid}] self-test: {n_mut} mutants + {n_ben} benign variants applied through the overlay, '
